@@ -72,8 +72,37 @@ func operandOf(v V) *tax.Total {
 			return nil
 		}
 		return t
+	case "ctt":
+		// ( ctt rule c <json> ): a loaded summary recalculated, as DocumentRef.Calculate does for
+		// payment lines; the result carries the unexported precise figures
+		if len(v.L) < 4 {
+			return nil
+		}
+		t := new(tax.Total)
+		if err := json.Unmarshal(v.L[3].S, t); err != nil {
+			return nil
+		}
+		t.Calculate(curOf(v.L[2].Int()), ruleOf(v.L[1].Int()))
+		return t
 	}
 	return nil
+}
+
+func ruleOf(r int64) cbc.Key {
+	if r != 0 {
+		return tax.RoundingRuleCurrency
+	}
+	return tax.RoundingRulePrecise
+}
+
+func curOf(c int64) currency.Code {
+	switch c {
+	case 0:
+		return currency.JPY
+	case 3:
+		return currency.KWD
+	}
+	return currency.EUR
 }
 
 func fingerprint(t *tax.Total) string {
@@ -111,13 +140,28 @@ func init() {
 				}
 			}
 			out := totalOut(res)
-			// neither operation may alter its operands: also after the result has been recalculated
-			// (Calculate writes through pointers the result may share with an operand)
+			// neither operation may alter its operands ...
+			for i, t := range ops {
+				if fingerprint(t) != before[i] {
+					return []V{VErr("mutated")}
+				}
+			}
+			// ... nor may the result share a row with an operand: recalculating a copy of the result and
+			// then the result itself, in place, (Calculate writes through every pointer the summary holds)
+			// must leave the operands as they were
 			probe := res.Clone()
 			probe.Calculate(currency.EUR, tax.RoundingRulePrecise)
 			for i, t := range ops {
 				if fingerprint(t) != before[i] {
 					return []V{VErr("mutated")}
+				}
+			}
+			if op != "merge" || len(ops) > 1 {
+				res.Calculate(currency.EUR, tax.RoundingRulePrecise)
+				for i, t := range ops {
+					if fingerprint(t) != before[i] {
+						return []V{VErr("shared")}
+					}
 				}
 			}
 			return out
@@ -126,18 +170,7 @@ func init() {
 			if t == nil {
 				return []V{VErr("operand")}
 			}
-			rr := tax.RoundingRulePrecise
-			if a[1].Int() != 0 {
-				rr = tax.RoundingRuleCurrency
-			}
-			cur := currency.EUR
-			switch a[2].Int() {
-			case 0:
-				cur = currency.JPY
-			case 3:
-				cur = currency.KWD
-			}
-			t.Calculate(cur, rr)
+			t.Calculate(curOf(a[2].Int()), ruleOf(a[1].Int()))
 			return totalOut(t)
 		case "pay":
 			obj, err := gobl.Parse(a[1].S)
